@@ -189,11 +189,23 @@ def gen_emu(rng: random.Random, tier: str, family: str | None = None):
         case["n"] = min(case["n"], 2)
         k = rng.random()
         if k < 0.6:
-            case["noise"] = dict(state_prep_error=rng.choice([0.25, 0.5]), p_false_pos=rng.choice([0.0, 0.125]), p_false_neg=rng.choice([0.0, 0.25]), runs=rng.choice([4, 8]), samples_per_run=rng.choice([1, 5]))
+            # state-preparation errors only: identical bad-atom configurations
+            # are grouped (reps > 1 as soon as runs exceeds the 2^n configurations)
+            case["noise"] = dict(state_prep_error=rng.choice([0.125, 0.25, 0.5]), p_false_pos=rng.choice([0.0, 0.125]), p_false_neg=rng.choice([0.0, 0.25]), runs=rng.choice([4, 8, 20, 40]), samples_per_run=rng.choice([1, 5]))
         elif k < 0.8:
             case["noise"] = dict(amp_sigma=0.125, runs=rng.choice([3, 6]), samples_per_run=rng.choice([1, 5]))
         else:
             case["noise"] = dict(temperature=50.0, runs=rng.choice([3, 6]), samples_per_run=rng.choice([1, 5]))
+        if rng.random() < 0.5:
+            # ... combined with a dissipative channel: every run is a master-equation
+            # run and the average is taken over density matrices
+            ryd = all(c[1].startswith("rydberg") for c in chans)
+            opts = [dict(dephasing_rate=0.25, hyperfine_dephasing_rate=0.125)]
+            if len(chans) == 1:
+                opts.append(dict(depolarizing_rate=0.25))
+            if ryd:
+                opts += [dict(relaxation_rate=0.5), dict(relaxation_rate=0.25, dephasing_rate=0.25)]
+            case["noise"].update(rng.choice(opts))
     if fam == "stoch" and len(chans) == 1:
         # keep the total duration away from the durations V2 cannot construct
         T = sum(op_dur(o) for o in case["ops"] if o["op"] in ("pulse", "delay"))
